@@ -382,10 +382,27 @@ class AnnounceFlow(ParseAnnounce):
         return True
 
 
+def _flow_vpn_when_rd(routes: list[Route]) -> list[Route]:
+    # a rule which carries a route distinguisher is a flow-vpn rule (SAFI 134), as the 'flow { route { rd ...' syntax
+    # already has it: sent under SAFI 133 the eight octets of the RD are read as the first components of the rule
+    from exabgp.bgp.message.update.nlri.flow import Flow
+    from exabgp.bgp.message.update.nlri.qualifier import RouteDistinguisher
+
+    for route in routes:
+        old_nlri = route.nlri
+        if old_nlri.rd is not RouteDistinguisher.NORD and old_nlri.safi != SAFI.flow_vpn:
+            new_nlri = Flow.make_flow(old_nlri.afi, SAFI.flow_vpn)
+            new_nlri._rd_override = old_nlri._rd_override
+            new_nlri._rules_cache = old_nlri._rules_cache
+            new_nlri._packed_stale = True
+            route.nlri = new_nlri
+    return routes
+
+
 @ParseAnnounce.register_family(AFI.ipv4, SAFI.flow_ip, ActionTarget.SCOPE, ActionOperation.EXTEND, ActionKey.NAME)
 def flow_ip_v4(tokeniser: Tokeniser) -> list[Route]:
     tokeniser.afi = AFI.ipv4  # the family the components are checked against is the announced one
-    return _build_route(tokeniser, AnnounceFlow.schema, AFI.ipv4, SAFI.flow_ip)
+    return _flow_vpn_when_rd(_build_route(tokeniser, AnnounceFlow.schema, AFI.ipv4, SAFI.flow_ip))
 
 
 @ParseAnnounce.register_family(AFI.ipv4, SAFI.flow_vpn, ActionTarget.SCOPE, ActionOperation.EXTEND, ActionKey.NAME)
@@ -397,7 +414,7 @@ def flow_vpn_v4(tokeniser: Tokeniser) -> list[Route]:
 @ParseAnnounce.register_family(AFI.ipv6, SAFI.flow_ip, ActionTarget.SCOPE, ActionOperation.EXTEND, ActionKey.NAME)
 def flow_ip_v6(tokeniser: Tokeniser) -> list[Route]:
     tokeniser.afi = AFI.ipv6  # the family the components are checked against is the announced one
-    return _build_route(tokeniser, AnnounceFlow.schema, AFI.ipv6, SAFI.flow_ip)
+    return _flow_vpn_when_rd(_build_route(tokeniser, AnnounceFlow.schema, AFI.ipv6, SAFI.flow_ip))
 
 
 @ParseAnnounce.register_family(AFI.ipv6, SAFI.flow_vpn, ActionTarget.SCOPE, ActionOperation.EXTEND, ActionKey.NAME)
